@@ -300,6 +300,31 @@ theorem groupKeysContiguous_of_no_groupby {d : Doc} (h : d.body.groupByL = []) :
   rw [h] at hl
   simp at hl
 
+/-! ## `removedIdx` never fails on an accepted document -/
+
+/-- `shapesInQuantifier` starts from `removedIdx d = .ok removed`; this is no restriction of its own: the constructors
+check that `page_by` / `subline_by` name columns (`_validate_section_columns`) -/
+theorem removedIdx_total {d : Doc} (ha : Accepted d) : ∃ removed, removedIdx d = .ok removed := by
+  unfold Accepted accepted at ha
+  simp only [Bool.and_eq_true] at ha
+  obtain ⟨⟨⟨⟨⟨⟨⟨⟨⟨_, _⟩, hbody⟩, _⟩, _⟩, _⟩, _⟩, _⟩, _⟩, _⟩ := ha
+  simp only [bodyAcc, Bool.and_eq_true] at hbody
+  obtain ⟨⟨⟨⟨⟨⟨_, _⟩, _⟩, hpb⟩, hsb⟩, _⟩, _⟩ := hbody
+  unfold removedIdx
+  apply mapM_total
+  intro n hn
+  have hin : n ∈ d.cols := by
+    simp only [removedNames, List.mem_append] at hn
+    rcases hn with hn | hn
+    · have := List.all_eq_true.mp hsb n (by simpa [Body.sublineByL] using hn)
+      simpa using this
+    · split at hn
+      · have := List.all_eq_true.mp hpb n (by simpa [Body.pageByL] using hn)
+        simpa using this
+      · cases hn
+  have hlt : d.cols.idxOf n < d.cols.length := List.idxOf_lt_length_iff.mpr hin
+  exact ⟨d.cols.idxOf n, by simp only [hlt, if_true]⟩
+
 /-! ## "raises `e`", decidably (a `DocG` has no decidable equality) -/
 
 def raises {α : Type} (r : Except String α) (e : String) : Bool :=
